@@ -492,3 +492,64 @@ class MainWiring(Contract):
         info = {'unit': 'main (construction sites)', 'file': self.tu, 'sha': tu.sha, 'cases': 1, 'lines': [None, None], 'extract_s': 0,
                 'facts': {k: [[str(a) for a in s_] for s_ in v] for k, v in sites.items()}}
         return [ex], info
+
+
+class MapDispatch(Contract):
+    """Virtual dispatch of the transport maps main constructs: the function that actually runs for apply / applyTo / applyToAll /
+    updateSM / _calcKick / update on each map class is the one under contract (final overrider = first class, from the
+    constructed class up its base chain, that declares the member).  A new override in a derived class (or a removed one)
+    silently replaces code under contract by code that is not; this unit makes that a failed obligation."""
+    name = 'main (dispatch of the transport maps)'
+    tu = 'src/main.cpp'
+    tags = {'C01', 'C02', 'C03', 'C04', 'C05', 'C08', 'C12', 'C15', 'C19'}
+    EXPECT = {
+        'vfps::DriftMap': {'apply': 'KickMap', 'applyTo': 'KickMap', 'applyToAll': 'SourceMap', 'updateSM': 'KickMap'},
+        'vfps::RFKickMap': {'apply': 'KickMap', 'applyTo': 'KickMap', 'applyToAll': 'SourceMap', 'updateSM': 'KickMap', '_calcKick': 'RFKickMap'},
+        'vfps::DynamicRFKickMap': {'apply': 'DynamicRFKickMap', 'applyTo': 'KickMap', 'applyToAll': 'SourceMap', 'updateSM': 'KickMap', '_calcKick': 'DynamicRFKickMap'},
+        'vfps::WakePotentialMap': {'apply': 'KickMap', 'applyTo': 'KickMap', 'applyToAll': 'SourceMap', 'updateSM': 'KickMap', 'update': 'WakePotentialMap'},
+        'vfps::FokkerPlanckMap': {'apply': 'FokkerPlanckMap', 'applyTo': 'FokkerPlanckMap', 'applyToAll': 'SourceMap'},
+        'vfps::Identity': {'apply': 'Identity', 'applyTo': 'Identity', 'applyToAll': 'SourceMap'},
+    }
+    MEMBER_TAGS = {'apply': {'C01', 'C02', 'C03', 'C04', 'C05', 'C08', 'C12', 'C19'}, 'applyTo': {'C15'}, 'applyToAll': {'C15'},
+                   'updateSM': {'C02', 'C03', 'C05', 'C08'}, '_calcKick': {'C03', 'C19', 'C05'}, 'update': {'C05', 'C08', 'C12'}}
+
+    def custom_verify(self, scratch, tc):
+        from vf.vcg import Exec
+        from vf.state import Obligation
+        tu = tc.get(self.tu)
+        fn = None
+        try:
+            fn = tc.get(self.tu, 'main').function('main')
+        except Exception:
+            pass
+        ex = Exec(tu, fn if fn is not None else next(iter(tu.funcs.values()))[0], 'main')
+        ex.default_tags = set(self.tags)
+
+        def declared(rec):
+            return set(c.get('name') for c in rec.get('inner', []) if c.get('kind') in ('CXXMethodDecl', 'FunctionTemplateDecl') and not c.get('isImplicit'))
+
+        def rec_of(q):
+            r = tu.records.get(q)
+            if r is None:
+                raise ExtractionError(f'class {q} not found among the declarations of main.cpp (renamed?)')
+            return r
+
+        obls = []
+        for cls, members in sorted(self.EXPECT.items()):
+            chain, q = [], cls
+            while q:
+                r = rec_of(q)
+                chain.append((q.split('::')[-1], declared(r)))
+                bases = [b['type']['qualType'] for b in r.get('bases', [])]
+                if len(bases) > 1:
+                    raise ExtractionError(f'{q}: multiple inheritance, dispatch contract has to be rewritten')
+                q = None
+                if bases:
+                    q = bases[0] if bases[0].startswith('vfps::') else 'vfps::' + bases[0]
+            for m, want in sorted(members.items()):
+                got = next((c for c, ds in chain if m in ds), None)
+                obls.append(Obligation(f'main#dispatch.{cls.split("::")[-1]}.{m}', set(self.MEMBER_TAGS[m]), [], z3.BoolVal(got == want), 'postcondition', None,
+                                       f'{cls}::{m} resolves to {got}::{m}; the function under contract is {want}::{m} (base chain {[c for c, _ in chain]})'))
+        ex.obls = obls + [Obligation('main#dispatch.canary', set(), [], z3.BoolVal(False), 'canary', None, '')]
+        info = {'unit': self.name, 'file': self.tu, 'sha': tu.sha, 'cases': 1, 'lines': [None, None], 'extract_s': 0, 'classes': len(self.EXPECT)}
+        return [ex], info
